@@ -408,6 +408,96 @@ class Rewriter:
             text = text[:rs] + repl + text[toks[close].end:]
             self.count("R22 Option::%s(closure) -> match (closure body kept)" % which)
 
+    def loop_continue(self, text):
+        """R24: `continue` is not supported in Verus `for` loops.  Shape handled: a loop body statement
+        `if COND { STMTS; continue; }` (no else) becomes `if COND { STMTS } else { <rest of the loop body> }`."""
+        guard = 0
+        while True:
+            guard += 1
+            if guard > 50:
+                raise ExtractError("R24: too many rewrites")
+            toks = [t for t in tokenize(text) if t.kind not in ("ws", "comment")]
+            kc = None
+            for k, t in enumerate(toks):
+                if t.kind == "ident" and t.text == "continue":
+                    kc = k
+                    break
+            if kc is None:
+                return text
+            if not (kc + 2 < len(toks) and toks[kc + 1].text == ";" and toks[kc + 2].text == "}"):
+                raise ExtractError("R24: unsupported `continue` shape (not the last statement of a block)")
+            close1 = kc + 2
+            # opening brace of the block that ends with `continue;`
+            depth = 0
+            open1 = None
+            for j in range(close1 - 1, -1, -1):
+                tt = toks[j]
+                if tt.kind == "punct" and tt.text in CLOSE:
+                    depth += 1
+                elif tt.kind == "punct" and tt.text in OPEN:
+                    if depth == 0:
+                        open1 = j
+                        break
+                    depth -= 1
+            if open1 is None or toks[open1].text != "{":
+                raise ExtractError("R24: cannot find the block of `continue`")
+            # the `if` that owns this block: walk back over the condition
+            depth = 0
+            kif = None
+            for j in range(open1 - 1, -1, -1):
+                tt = toks[j]
+                if tt.kind == "punct" and tt.text in CLOSE:
+                    depth += 1
+                elif tt.kind == "punct" and tt.text in OPEN:
+                    if depth == 0:
+                        break
+                    depth -= 1
+                elif depth == 0 and tt.kind == "punct" and tt.text == ";":
+                    break
+                elif depth == 0 and tt.kind == "ident" and tt.text == "if":
+                    kif = j
+                    break
+            if kif is None or (kif > 0 and toks[kif - 1].kind == "ident" and toks[kif - 1].text == "else"):
+                raise ExtractError("R24: `continue` is not in a plain `if` block")
+            if close1 + 1 < len(toks) and toks[close1 + 1].kind == "ident" and toks[close1 + 1].text == "else":
+                raise ExtractError("R24: `if .. { continue } else ..` is not handled")
+            # the block containing the `if` must be a loop body
+            depth = 0
+            open0 = None
+            for j in range(kif - 1, -1, -1):
+                tt = toks[j]
+                if tt.kind == "punct" and tt.text in CLOSE:
+                    depth += 1
+                elif tt.kind == "punct" and tt.text in OPEN:
+                    if depth == 0:
+                        open0 = j
+                        break
+                    depth -= 1
+            if open0 is None or toks[open0].text != "{":
+                raise ExtractError("R24: cannot find the loop body")
+            is_loop = False
+            depth = 0
+            for j in range(open0 - 1, -1, -1):
+                tt = toks[j]
+                if tt.kind == "punct" and tt.text in ")]":
+                    depth += 1
+                elif tt.kind == "punct" and tt.text in "([":
+                    if depth == 0:
+                        break
+                    depth -= 1
+                elif depth == 0 and tt.kind == "punct" and tt.text in ";{}":
+                    break
+                elif depth == 0 and tt.kind == "ident" and tt.text in ("for", "while", "loop"):
+                    is_loop = True
+                    break
+            if not is_loop:
+                raise ExtractError("R24: `if .. { continue }` is not a direct statement of a loop body")
+            close0 = match_close(toks, open0)
+            # apply: close the else before the loop body's `}`, open it after the if-block, drop `continue;`
+            text = (text[:toks[kc].start] + " " * (toks[kc + 1].end - toks[kc].start) + text[toks[kc + 1].end:toks[close1].end]
+                    + " else {" + text[toks[close1].end:toks[close0].start] + "} " + text[toks[close0].start:])
+            self.count("R24 `if c { ..; continue; }` in a loop body -> `if c { .. } else { rest of the body }`")
+
     def apply_maps(self, text, maps, what):
         for rx, repl in maps:
             text, n = rx.subn(repl, text)
@@ -820,6 +910,7 @@ class Unit:
         body = rw.closure_wildcards(body)
         if opts.get("optclosures"):
             body = rw.option_closures(body)
+        body = rw.loop_continue(body)
         body = rw.discarded_option_map(body)
         body = rw.debug_guards(body)
         body = rw.local_macro_defs(body)
